@@ -109,7 +109,7 @@ Definition judge_buf (f : list tok) : Z :=
 
 (** * calls *)
 (** [2, tkind, reqlimit, resplimit, req_hdr, req_ops, server_ran, rep_hdr, min_hdr, rep_ops,
-     err_ops, obs_code, sent, replies, bin, name_len, args, reply, errmsg_len] *)
+     err_ops, obs_code, sent, replies, bin, name_len, args, reply, errmsg_len, oneway] *)
 Definition judge_call (f : list tok) : Z :=
   let g n := nth_tok (Z.to_nat n) f in
   let tkind := as_int (g 1) in
@@ -118,7 +118,8 @@ Definition judge_call (f : list tok) : Z :=
   let ran := as_int (g 6) =? 1 in
   let r := if ran then mkreply (as_int (g 7)) (as_int (g 8)) (parse_ops (g 9)) (parse_ops (g 10))
            else mkreply 5 5 [] [] in
-  let res := call t m r in
+  let ow := as_int (g 19) =? 1 in
+  let res := if ow then oneway t m r else call t m r in
   let ok_out := as_int (g 11) =? outcome_code (out res) in
   let ok_sent := opt_matches (sent res) (ints (g 12)) in
   (* the server runs iff a frame reached it; only then is there something to compare *)
@@ -145,7 +146,7 @@ Definition judge_call (f : list tok) : Z :=
     | _ => 9
     end in
   verdict (ok_out && ok_sent && ok_ran && ok_back && ok_enc)
-          (2000 + 100 * tkind + 10 * path + (if bin then 1 else 0)).
+          (2000 + 100 * tkind + 10 * path + (if bin then 1 else 0) + (if ow then 500 else 0)).
 
 (** * publishes *)
 (** [3, pkind, publimit, req_hdr, req_ops, obs_code, sent, bin, name_len, value] *)
